@@ -82,6 +82,11 @@ type ToolSpec struct {
 	Beh string   `json:"beh"` // ok | fail | panic | convpanic (streamable tool whose stream panics while it is forwarded)
 	Err *ErrSpec `json:"err,omitempty"`
 	ID  int      `json:"id,omitempty"` // panic payload
+	St  int      `json:"st,omitempty"` // how the call uses the local state (see Node.St)
+	// Unknown: the call names a tool the ToolsNode does not have; the node's UnknownToolsHandler answers it and
+	// behaves as Beh says (ok | fail | panic).  The framework runs the handler like an invokable tool: not an
+	// input of the model.
+	Unknown bool `json:"unknown,omitempty"`
 }
 
 type Node struct {
@@ -104,6 +109,13 @@ type Node struct {
 	// error item and panic passes the wrappers as it is: not an input of the model.
 	OutKey bool   `json:"out_key,omitempty"`
 	InKey  string `json:"in_key,omitempty"`
+	// St: how the body uses the local state of the enclosing graph (only when the node's graph or a graph
+	// around it declares one, see Graph.State): 0 = not at all, 1 = its whole call-time part — where its fault is
+	// raised: the returned error, the panic, the rerun request, the cancellation — runs INSIDE the handler it
+	// passes to compose.ProcessState, 2 = it updates the state through compose.ProcessState first and raises its
+	// fault afterwards.  ProcessState hands the handler's error on as it is and a panic unwinds through it: not
+	// an input of the model.
+	St int `json:"st,omitempty"`
 }
 
 type Graph struct {
@@ -111,8 +123,12 @@ type Graph struct {
 	Chain  bool      `json:"chain,omitempty"` // built with compose.NewChain (every stage is a single node, no branch)
 	WF     bool      `json:"wf,omitempty"`    // built as a compose.Workflow (all-predecessor, eager scheduling: tasks are collected one by one)
 	Stages [][]*Node `json:"stages"`
-	Loop   bool      `json:"loop,omitempty"` // last stage (a single node) branches back to the first stage, never to END
-	Max    int       `json:"max,omitempty"`  // WithMaxRunSteps (0 = default)
+	// State: the graph declares a local state (compose.WithGenLocalState); its nodes' bodies and tool calls —
+	// those of nested graphs that declare none of their own included: they find this one in their context —
+	// may use it through compose.ProcessState (Node.St / ToolSpec.St).
+	State bool `json:"state,omitempty"`
+	Loop  bool `json:"loop,omitempty"` // last stage (a single node) branches back to the first stage, never to END
+	Max   int  `json:"max,omitempty"`  // WithMaxRunSteps (0 = default)
 	// The branch after the last node: a cyclic graph has one (back to the first node); with EndBr an
 	// acyclic graph whose last stage is a single node reaches END through a branch instead of an edge.
 	EndBr bool     `json:"end_br,omitempty"`
@@ -131,6 +147,7 @@ type Case struct {
 	InPos        int      `json:"in_pos,omitempty"`        // ... 0 = after the chunk, 1 = before it, 2 = alone
 	Resume       bool     `json:"resume,omitempty"`        // the graph is compiled with a checkpoint store; while a call ends in an interrupt (a node returned InterruptAndRerun: it succeeds when it is run again) the run is resumed from its checkpoint; the observation is the final one
 	Twice        bool     `json:"twice,omitempty"`         // the compiled runnable is called a second time after the first call has returned (same input, fresh context): whatever the first run left behind — tasks still in flight after a failure, recovered panics — must not show in the second
+	Conc         bool     `json:"conc,omitempty"`          // the freshly compiled runnable gets its FIRST two calls at the same time, from two goroutines (same input, a context each): what the runs share — the compiled graph, whatever a run keeps in it — must not mix their errors up; both observations go through the oracle and must be legal
 	RtMax        int      `json:"rt_max,omitempty"`        // call option compose.WithRuntimeMaxSteps (top graph in Pregel mode only): overrides the compiled limit of the top graph, not of nested graphs
 	Fwd          *FwdSpec `json:"fwd,omitempty"`           // a forwarder case (fwd.go): G / Par unused
 }
@@ -236,6 +253,54 @@ type env struct {
 	// resumed cases: the nodes that have asked for their rerun already (they succeed from then on)
 	resume    bool
 	rerunDone map[string]bool
+	noMarker  bool   // the caller of callOnce keeps the fatal marker itself (concurrent calls)
+	root      *Graph // the graph of the case (scoped: which bodies find a local state in their context)
+}
+
+// scoped: does the body of the node at path (keys from the top graph; a tool call: the ToolsNode node's
+// path) find a local state in its context — does its own graph or a graph around it declare one?
+func (e *env) scoped(path []string) bool {
+	g := e.root
+	for _, k := range path {
+		if g == nil {
+			return false
+		}
+		if len(stateOpts(g)) > 0 {
+			return true
+		}
+		var next *Graph
+		for _, st := range g.Stages {
+			for _, n := range st {
+				if n.Key == k && n.Kind == "sub" {
+					next = n.Sub
+				}
+			}
+		}
+		g = next
+	}
+	return false
+}
+
+// useState runs f — the call-time part of a body — the way the node uses the local state (Node.St).
+func useState(ctx context.Context, st int, scoped bool, f func() error) error {
+	if !scoped {
+		return f()
+	}
+	switch st {
+	case 1:
+		return compose.ProcessState[*hState](ctx, func(ctx context.Context, s *hState) error {
+			s.n++
+			return f()
+		})
+	case 2:
+		if err := compose.ProcessState[*hState](ctx, func(ctx context.Context, s *hState) error {
+			s.n++
+			return nil
+		}); err != nil {
+			return err
+		}
+	}
+	return f()
 }
 
 // memStore is the checkpoint store of a resumed case.
@@ -354,7 +419,11 @@ func payloadOf(pi any) int {
 }
 
 // callTime is what every lambda flavour does when it is called.
-func callTime(e *env, n *Node, path []string) error {
+func callTime(ctx context.Context, e *env, n *Node, path []string, scoped bool) error {
+	return useState(ctx, n.St, scoped, func() error { return callTime1(e, n, path) })
+}
+
+func callTime1(e *env, n *Node, path []string) error {
 	switch n.Beh {
 	case "fail":
 		e.rec(path, "fail")
@@ -404,7 +473,7 @@ func keyOpts(n *Node, prefix []string) []compose.GraphAddNodeOpt {
 }
 
 // hState is the local state of every graph of a case that has a node with a state handler.
-type hState struct{}
+type hState struct{ n int }
 
 func genState(ctx context.Context) *hState { return &hState{} }
 
@@ -426,8 +495,11 @@ func handlerOpts(e *env, n *Node, path []string) []compose.GraphAddNodeOpt {
 	return nil
 }
 
-// stateOpts: the graph declares the state when one of its own nodes has a handler.
+// stateOpts: the graph declares the state when the case says so or one of its own nodes has a handler.
 func stateOpts(g *Graph) []compose.NewGraphOption {
+	if g.State {
+		return []compose.NewGraphOption{compose.WithGenLocalState(genState)}
+	}
 	for _, st := range g.Stages {
 		for _, n := range st {
 			if n.Kind == "lam" && (n.Beh == "prefail" || n.Beh == "postfail") {
@@ -440,17 +512,18 @@ func stateOpts(g *Graph) []compose.NewGraphOption {
 
 func lambdaOf(e *env, n *Node, path []string) *compose.Lambda {
 	out := M{strings.Join(path, "/"): "v"} // globally unique key: fan-in merges never collide
+	scoped := e.scoped(path)
 	switch n.Flav {
 	case "i":
 		return compose.InvokableLambda(func(ctx context.Context, in M) (M, error) {
-			if err := callTime(e, n, path); err != nil {
+			if err := callTime(ctx, e, n, path, scoped); err != nil {
 				return nil, err
 			}
 			return out, nil
 		})
 	case "s":
 		return compose.StreamableLambda(func(ctx context.Context, in M) (*schema.StreamReader[M], error) {
-			if err := callTime(e, n, path); err != nil {
+			if err := callTime(ctx, e, n, path, scoped); err != nil {
 				return nil, err
 			}
 			switch n.Beh {
@@ -501,14 +574,14 @@ func lambdaOf(e *env, n *Node, path []string) *compose.Lambda {
 					return nil, err // the input's error item, as it is
 				}
 			}
-			if err := callTime(e, n, path); err != nil {
+			if err := callTime(ctx, e, n, path, scoped); err != nil {
 				return nil, err
 			}
 			return out, nil
 		})
 	case "t":
 		return compose.TransformableLambda(func(ctx context.Context, in *schema.StreamReader[M]) (*schema.StreamReader[M], error) {
-			if err := callTime(e, n, path); err != nil {
+			if err := callTime(ctx, e, n, path, scoped); err != nil {
 				in.Close()
 				return nil, err
 			}
@@ -524,6 +597,8 @@ type hTool struct {
 	spec ToolSpec
 	e    *env
 	path []string
+	// scoped: the ToolsNode sits in a graph that has a local state (its own or one around it)
+	scoped bool
 }
 
 func (t *hTool) Info(ctx context.Context) (*schema.ToolInfo, error) {
@@ -531,15 +606,21 @@ func (t *hTool) Info(ctx context.Context) (*schema.ToolInfo, error) {
 }
 
 func (t *hTool) InvokableRun(ctx context.Context, args string, opts ...tool.Option) (string, error) {
-	switch t.spec.Beh {
-	case "fail":
-		t.e.rec(t.path, "tool-fail")
-		return "", t.spec.Err.mk()
-	case "panic":
-		t.e.rec(t.path, "tool-panic")
-		boom(t.spec.ID)
+	err := useState(ctx, t.spec.St, t.scoped, func() error {
+		switch t.spec.Beh {
+		case "fail":
+			t.e.rec(t.path, "tool-fail")
+			return t.spec.Err.mk()
+		case "panic":
+			t.e.rec(t.path, "tool-panic")
+			boom(t.spec.ID)
+		}
+		t.e.rec(t.path, "tool-ok")
+		return nil
+	})
+	if err != nil {
+		return "", err
 	}
-	t.e.rec(t.path, "tool-ok")
 	return "r", nil
 }
 
@@ -565,18 +646,33 @@ func toolsGraph(e *env, n *Node, path []string) (*compose.Graph[M, M], error) {
 	ctx := context.Background()
 	var tools []tool.BaseTool
 	var calls []schema.ToolCall
+	unknown := map[string]*hTool{} // calls of tools the node does not have: answered by its UnknownToolsHandler
 	for i, ts := range n.Tools {
 		name := "t" + strconv.Itoa(i)
-		ht := hTool{name: name, spec: ts, e: e, path: pathOf(pathOf(path, "tn"), name)}
-		if ts.Beh == "convpanic" {
+		ht := hTool{name: name, spec: ts, e: e, path: pathOf(pathOf(path, "tn"), name), scoped: e.scoped(path)}
+		switch {
+		case ts.Beh == "convpanic":
 			tools = append(tools, &sTool{ht})
-		} else {
+		case ts.Unknown:
+			h := ht
+			unknown[name] = &h
+		default:
 			h := ht
 			tools = append(tools, invokableOnly{&h})
 		}
 		calls = append(calls, schema.ToolCall{ID: "c" + strconv.Itoa(i), Function: schema.FunctionCall{Name: name, Arguments: "{}"}})
 	}
-	tn, err := compose.NewToolNode(ctx, &compose.ToolsNodeConfig{Tools: tools})
+	conf := &compose.ToolsNodeConfig{Tools: tools}
+	if len(unknown) > 0 {
+		conf.UnknownToolsHandler = func(ctx context.Context, name, input string) (string, error) {
+			h, ok := unknown[name]
+			if !ok {
+				return "", fmt.Errorf("harness: unknown-tool handler called for %q", name)
+			}
+			return h.InvokableRun(ctx, input)
+		}
+	}
+	tn, err := compose.NewToolNode(ctx, conf)
 	if err != nil {
 		return nil, err
 	}
@@ -938,6 +1034,17 @@ func inputStream(c *Case) *schema.StreamReader[M] {
 
 const watchdog = 10 * time.Second
 
+// hangSeen: a run of this process has already met its watchdog (that is a violation on its own); the cases
+// after it wait 1 s only, so that a defect that makes a whole class of cases hang does not cost 10 s each.
+var hangSeen atomic.Bool
+
+func watchdogPeriod() time.Duration {
+	if hangSeen.Load() {
+		return 1 * time.Second
+	}
+	return watchdog
+}
+
 var cpSeq atomic.Int64
 
 var fatalMarker = func() string {
@@ -1021,10 +1128,25 @@ func runImpl(c *Case) []Obs {
 	return all
 }
 
+// markFatal: a panic on a goroutine the harness does not own kills the process: leave a marker naming the
+// case while it runs (the returned function removes it).
+func markFatal(c *Case) func() {
+	if fatalMarker == "" {
+		return func() {}
+	}
+	// ("case" is blanked by ./check when it copies the marker into the replay file: the case is
+	// kept under "failing_case" as well, with the way to re-run it)
+	b, _ := json.Marshal(map[string]any{"case": c, "failing_case": c, "case_summary": summary(c),
+		"how_to_replay": "write {\"case\": <the value of failing_case>} to a file F and run ./check C13 --replay F (the harness process dies again while it runs the case)",
+		"what":          "the process died while this case was running (a panic escaped on a goroutine of the implementation): " + summary(c)})
+	os.WriteFile(fatalMarker, b, 0o644)
+	return func() { os.Remove(fatalMarker) }
+}
+
 // runOnce builds and compiles the graph of the case and calls it; with c.Twice the same compiled
 // runnable is called again once the first call has returned (second result: the extra observation).
 func runOnce(c *Case) (Obs, *Obs) {
-	e := &env{}
+	e := &env{root: c.G}
 	cg, err := build(e, c.G, nil)
 	if err != nil {
 		return Obs{Class: "build", Info: err.Error()}, nil
@@ -1037,6 +1159,20 @@ func runOnce(c *Case) (Obs, *Obs) {
 	r, err := cg.Compile(context.Background(), copts...)
 	if err != nil {
 		return Obs{Class: "build", Info: err.Error()}, nil
+	}
+	if c.Conc {
+		// (the bodies of both calls write the same log: it names the bodies that ran and failed, and they do
+		// the same in every call)
+		done := markFatal(c)
+		e.noMarker = true
+		var a, b Obs
+		var wg sync.WaitGroup
+		wg.Add(2)
+		go func() { defer wg.Done(); a = callOnce(c, e, r) }()
+		go func() { defer wg.Done(); b = callOnce(c, e, r) }()
+		wg.Wait()
+		done()
+		return a, &b
 	}
 	first := callOnce(c, e, r)
 	if !c.Twice || first.Class == "hang" {
@@ -1078,15 +1214,8 @@ func callOnce(c *Case, e *env, r compose.Runnable[M, M]) Obs {
 			cancel()
 		}
 	}
-	// a panic on a goroutine the harness does not own kills the process: leave a marker naming the case
-	if fatalMarker != "" {
-		// ("case" is blanked by ./check when it copies the marker into the replay file: the case is
-		// kept under "failing_case" as well, with the way to re-run it)
-		b, _ := json.Marshal(map[string]any{"case": c, "failing_case": c, "case_summary": summary(c),
-			"how_to_replay": "write {\"case\": <the value of failing_case>} to a file F and run ./check C13 --replay F (the harness process dies again while it runs the case)",
-			"what":          "the process died while this case was running (a panic escaped on a goroutine of the implementation): " + summary(c)})
-		os.WriteFile(fatalMarker, b, 0o644)
-		defer os.Remove(fatalMarker)
+	if !e.noMarker {
+		defer markFatal(c)()
 	}
 	type out struct {
 		callErr, itemErr error
@@ -1130,7 +1259,8 @@ func callOnce(c *Case, e *env, r compose.Runnable[M, M]) Obs {
 		}()
 		select {
 		case o = <-done:
-		case <-time.After(watchdog):
+		case <-time.After(watchdogPeriod()):
+			hangSeen.Store(true)
 			return Obs{Class: "hang", Log: e.snapshot()}
 		}
 		// an interrupted run of a resumed case is continued from its checkpoint (same id, same input)
@@ -1196,6 +1326,9 @@ func summary(c *Case) string {
 	}
 	if c.InErr != nil {
 		s += "; error item on the input stream"
+	}
+	if c.Conc {
+		s += "; two calls at the same time on the freshly compiled runnable"
 	}
 	return s
 }
